@@ -17,11 +17,18 @@ from migen.fhdl.structure import _Operator, _Slice, _Assign, _Fragment
 # Print Constant -----------------------------------------------------------------------------------
 
 def _generate_constant(node):
-    return "{sign}{bits}'d{value}".format(
-        sign  = "" if node.value >= 0 else "-",
-        bits  = str(node.nbits),
-        value = abs(node.value),
-    ), node.signed
+    if node.signed:
+        # Signed Constants are emitted as sized signed literals (two's complement) so that the
+        # Verilog expression really is signed (a leading "-" on an unsigned literal is not).
+        return "{bits}'sd{value}".format(
+            bits  = str(node.nbits),
+            value = node.value if node.value >= 0 else 2**node.nbits + node.value,
+        ), True
+    else:
+        return "{bits}'d{value}".format(
+            bits  = str(node.nbits),
+            value = node.value,
+        ), False
 
 # Print Signal -------------------------------------------------------------------------------------
 
